@@ -593,3 +593,43 @@ def r_canonical_no_simple_key(ctx, repo):
     if n_states < 2:
         raise AnalysisError('R-CANONICAL-NO-SIMPLE-KEY: only %d flow-mapping key states found' % n_states)
     return rule
+
+
+# ------------------------------------------------------------------------------------- R-MARK-COMPONENTS-COHERENT
+def r_mark_components_coherent(ctx, repo):
+    """A Mark says "character number index is at (line, column)".  The three numbers are true together only when they are read
+    from one snapshot of one position: in every Mark(name, index, line, column, ...) construction of the package (Python and
+    the lowered .pyx) the three arguments are the attributes .index / .line / .column of the same object expression (or
+    plain locals each bound once to such attributes of one object)."""
+    rule = ctx.rule('R-MARK-COMPONENTS-COHERENT', 'index, line and column of every Mark(...) are read from one and the same position object')
+    n = 0
+    for f in repo.all_functions():
+        for c in A.func_calls(f.node):
+            if not (isinstance(c.func, ast.Name) and c.func.id == 'Mark') or c.keywords or len(c.args) < 4:
+                continue
+            n += 1
+            bases = []
+            for a, want in zip(c.args[1:4], ('index', 'line', 'column')):
+                if isinstance(a, ast.Name):
+                    defs = [x.value for x in walk_function(f.node) if isinstance(x, ast.Assign)
+                            and any(isinstance(t, ast.Name) and t.id == a.id for t in x.targets)]
+                    a = defs[0] if len(defs) == 1 else a
+                if isinstance(a, ast.Attribute):
+                    bases.append((norm(a.value), a.attr))
+                else:
+                    bases.append((None, norm(a)[:30]))
+            objs = {b for b, _ in bases}
+            if None in objs:
+                raise AnalysisError('%s: Mark(...) built from %s, which is not an attribute of a position object'
+                                    % (f.qualname, ', '.join(t for b, t in bases if b is None)))
+            if len(objs) == 1:
+                rule.ok(f.loc(c), 'Mark from %s' % next(iter(objs)))
+            else:
+                rule.fail('%s|mixed' % f.qualname, f.module.rel, c.lineno, f.qualname, A.anon_text(c, f.node, 70),
+                          'this Mark takes its index / line / column from different objects (%s): a position saved earlier combined '
+                          'with the current one names a place that does not exist (the line has moved on since the index and the '
+                          'column were saved), so error messages and token marks point to the wrong line'
+                          % ', '.join('%s from %s' % (t, b) for b, t in bases))
+    if n < 2:
+        raise AnalysisError('only %d Mark(...) constructions found' % n)
+    return rule
